@@ -61,7 +61,7 @@ def run(chk, prog):
         for L in {id(L): L for a in s.accesses for L in a.loops if L.name == "n"}.values():
             chk.check(L.lo == 0 and sp.expand(S.norm(L.hi) - B) == 0, "R1", A.loc(fn, {"line": L.node["line"]}), "%s: the bunch loop covers all B bunches" % nm,
                       "%s:bunch-loop" % nm)
-    chk.floor("R1-subscripts", nsub, 25)
+    chk.floor("R1-subscripts", nsub, 20)
 
     # ---- R2 -------------------------------------------------------------------------------------
     axis = sp.Symbol("axis", real=True)
